@@ -38,7 +38,12 @@ BarClauses(r) ==
           <<"copy-equal", ok => /\ r.copyRaised = ""
                                 /\ r.copyNum = r.num /\ r.copyDen = r.den /\ r.copyKey = r.key
                                 /\ EventBag(RelEvents(r.copyOut)) = EventBag(RelEvents(r.out))
-                                /\ RelDur(r.copyOut) = RelDur(r.out) /\ r.copyEquals>> >>
+                                /\ RelDur(r.copyOut) = RelDur(r.out) /\ r.copyEquals>>,
+          (* a copy taken after the bar was transposed carries the bar's current key, signature and content *)
+          <<"copy-after-transpose-equal", (ok /\ r.later.done) =>
+                 /\ r.later.copyKey = r.later.barKey /\ r.later.sigSame /\ r.later.equals
+                 /\ EventBag(RelEvents(r.later.copyOut)) = EventBag(RelEvents(r.later.barOut))
+                 /\ RelDur(r.later.copyOut) = RelDur(r.later.barOut)>> >>
 
 (* ---------------------------------------------------------------- C09 *)
 (* expected bar grid from the meta track: signatures in force at each bar start, until maxDur is covered *)
